@@ -192,6 +192,38 @@ func vxPinnedLinear(maxWidth float64) (s *Linear, o TickOptions, spacing float64
 	return
 }
 
+// VxC17_LinearSpacing: the tick spacing the pinned-level harnesses take from the library is itself a
+// nice value by an independent reference: Base^floor(level/2) for an explicit base (10 included), and
+// 10^floor(level/2), times 5 at odd levels, only for the default base (Base == 0).
+// C17: "at nice values (integer multiples of a power of the base, or of 5 times a power of ten by default)".
+// Base and level are case-split (math.Pow is evaluated on constants); the domain is symbolic and must
+// not influence the spacing.
+//
+//vx:mode R
+//vx:solver z3
+//vx:bound Base in {0, 2, 3, 10}, level -4..5; domain any reals Min < Max
+//vx:outside other bases and levels (the formula is the same code path)
+func VxC17_LinearSpacing() {
+	base := []int{0, 2, 3, 10}[vx.Choose("base", 0, 3)]
+	level := vx.Choose("level", 0, 9) - 4
+	s := &Linear{Min: vx.Float("Min"), Max: vx.Float("Max"), Base: base}
+	vx.Assume(s.Min < s.Max)
+	_, _, spacing := s.spacingAtLevel(level, vx.Choose("roundOut", 0, 1) == 1)
+	eb := float64(base)
+	if base == 0 {
+		eb = 10
+	}
+	half := level / 2
+	if level < 0 && level%2 != 0 {
+		half--
+	}
+	want := math.Pow(eb, float64(half))
+	if base == 0 && level%2 != 0 {
+		want *= 5
+	}
+	vx.Assert(spacing == want, "the spacing at a level is a power of the base (times 5 at odd levels of the default base only)")
+}
+
 // VxC17_LinearNice: Nice never shrinks the domain (beyond the library's 1e-10 slack), moves each end
 // by less than one spacing, is idempotent, and afterwards the first and last major ticks are the new ends.
 // C17: "Nice never shrinks the domain or makes it non-finite, and for Max>=3 it is idempotent, adds at most one major
